@@ -114,12 +114,15 @@ template<int DD, class A> std::unique_ptr<A> il_construct() {
 	else { return std::make_unique<A>(); }
 }
 template<int DD, class A> void assign_rows(A& a, std::vector<idx> const& s, int base, bool construct, std::unique_ptr<A>* out) {
+	bool const cf = W.count_faults; W.count_faults = false;  // building the input range is the harness's business, not a fault opportunity
 	if constexpr(DD == 1) {
 		std::vector<T> r; for(idx i = 0; i < s[0]; ++i) { r.push_back(T(static_cast<int>(base + i))); }
+		W.count_faults = cf;
 		if(construct) { *out = std::make_unique<A>(r.begin(), r.end()); } else { a.assign(r.begin(), r.end()); }
 	} else {
 		using Sub = typename A::value_type; std::vector<Sub> rows; std::vector<idx> tail(s.begin() + 1, s.end()); idx per = prod(tail);
 		for(idx i = 0; i < s[0]; ++i) { Sub r(vo::make_extensions<DD - 1>(tail)); for(idx j = 0; j < per; ++j) { r.data_elements()[j] = T(static_cast<int>(base + i*per + j)); } rows.push_back(std::move(r)); }
+		W.count_faults = cf;
 		if(construct) { *out = std::make_unique<A>(rows.begin(), rows.end()); } else { a.assign(rows.begin(), rows.end()); }
 	}
 }
@@ -256,7 +259,9 @@ static Outcome run_transition(std::vector<int> const& hist, int op, MPool const&
 		auto const& od = g_ops[static_cast<std::size_t>(op)];
 		long c_copy = W.ncopy, c_move = W.nmove, c_as = W.nassign, c_mas = W.nmassign, c_val = W.nvalue, c_alloc = W.nalloc;
 		auto const* data_a = p.a->data_elements();
+		long f0 = W.fault_count;
 		od.real(p);
+		out.nfault = W.fault_count - f0;
 		auto fail = [&](std::string o, std::string d) { if(out.ok) { out.ok = false; out.oracle = std::move(o); out.detail = std::move(d); } };
 		if(!W.errs.empty()) { fail("registry:" + W.errs[0], W.errs.size() > 1 ? W.errs[1] : ""); }
 		Cmp ca = compare(*p.a, after.a, "a", !(od.flags & F_ALLOC_UNSPEC)); if(!ca.ok) { fail(ca.oracle, ca.detail); }
@@ -291,6 +296,63 @@ static Outcome run_transition(std::vector<int> const& hist, int op, MPool const&
 	return out;
 }
 
+// ---------- C09: one transition with the k-th fault opportunity inside the operation armed ----------
+static char const* const kind_name[] = {"alloc", "elem-ctor", "elem-assign"};
+static Outcome run_fault(std::vector<int> const& hist, int op, long k) {
+	Outcome out;
+	W.reset();
+	auto fail = [&](std::string o, std::string d) { if(out.ok) { out.ok = false; out.oracle = std::move(o); out.detail = std::move(d); } };
+	int kind = -1;
+	{
+		Pool p; make_pool(p);
+		for(int h : hist) { g_ops[static_cast<std::size_t>(h)].real(p); }
+		Arr known(X(shape_menu(false)[2]), T(5));  // built before arming; used by the validity probe
+		auto const& od = g_ops[static_cast<std::size_t>(op)];
+		bool thrown = false;
+		W.fault_at = W.fault_count + k;
+		try { od.real(p); } catch(instr::Injected const& e) { thrown = true; kind = e.what; }
+		W.fault_at = -1;
+		kind = W.fault_kind_hit;
+		std::string kn = kind >= 0 ? kind_name[kind] : "none";
+		out.strides = kn;  // transports the fault kind back to the parent
+		if(kind < 0) { out.strides = "not-reached"; return out; }
+		if(!thrown) { fail("swallowed", "the injected exception did not reach the caller"); }
+		if(!W.errs.empty()) { fail("registry:" + W.errs[0], W.errs.size() > 1 ? W.errs[1] : ""); }
+		// consistency between extents and live elements / owned blocks
+		long owned_blocks = 0, expected_alive = known.num_elements();
+		for(auto* sl : {p.a.get(), p.b.get()}) {
+			auto n = sl->num_elements();
+			if(n == 0) { continue; }
+			++owned_blocks; expected_alive += n;
+			auto it = W.blocks.find(sl->data_elements());
+			if(it == W.blocks.end()) { fail("invalid-after:storage", "a slot reports elements but owns no live block"); continue; }
+			if(static_cast<long>(it->second.n) != n) { fail("invalid-after:extents-vs-block", "extents say " + std::to_string(n) + " elements, block has " + std::to_string(it->second.n)); }
+#if HM_ELEM == 0
+			for(idx i = 0; i < n; ++i) { if(!W.alive.count(sl->data_elements() + i)) { fail("invalid-after:dead-element", "element " + std::to_string(i) + " of a slot is not alive"); break; } }
+#endif
+		}
+		++owned_blocks;  // `known`
+		if(static_cast<long>(W.blocks.size()) != owned_blocks) { fail("leak-block", std::to_string(W.blocks.size()) + " blocks outstanding, " + std::to_string(owned_blocks) + " owned by arrays, right after the failed operation"); }
+#if HM_ELEM == 0
+		if(static_cast<long>(W.alive.size()) != expected_alive) { fail(static_cast<long>(W.alive.size()) > expected_alive ? "leak-element" : "invalid-after:dead-element", std::to_string(W.alive.size()) + " live elements, " + std::to_string(expected_alive) + " expected from the extents"); }
+#endif
+		// assignable + equal afterwards (only if still consistent: otherwise the destructor is the probe)
+		if(out.ok) {
+			W.count_faults = false;
+			*p.a = known; *p.b = known;
+			MArr mk = m_fresh(shape_menu(false)[2], 0, [](idx) { return 5; });
+			Cmp ca = compare(*p.a, mk, "a", false), cb = compare(*p.b, mk, "b", false);
+			if(!ca.ok) { fail("invalid-after:assign", ca.detail); } if(!cb.ok) { fail("invalid-after:assign", cb.detail); }
+			if(!W.errs.empty()) { fail("registry-after:" + W.errs[0], ""); }
+			W.count_faults = true;
+		}
+	}
+	if(!W.errs.empty()) { fail("registry-at-destruction:" + W.errs[0], ""); }
+	else if(!W.blocks.empty()) { fail("leak-block", std::to_string(W.blocks.size()) + " block(s) outstanding after the pool died"); }
+	else if(!W.alive.empty()) { fail("leak-element", std::to_string(W.alive.size()) + " element(s) never destroyed"); }
+	return out;
+}
+
 static std::string hist_str(std::vector<int> const& h) { std::string s; for(std::size_t i = 0; i < h.size(); ++i) { s += (i ? " ; " : ""); s += g_ops[static_cast<std::size_t>(h[i])].name; } return s; }
 static std::string hist_ids(std::vector<int> const& h) { std::string s; for(std::size_t i = 0; i < h.size(); ++i) { s += (i ? "," : ""); s += std::to_string(h[i]); } return s; }
 
@@ -303,6 +365,8 @@ int main(int argc, char** argv) {
 	int maxdepth = static_cast<int>(args.geti("depth", thorough ? 4 : 3));
 	long max_states = args.geti("max_states", 400000);
 	std::string prop = args.get("prop", "all");
+	bool fault_mode = args.get("mode", "") == "fault";
+	long fault_runs = 0, fault_nontrivial = 0;
 	mc::set_deadline(static_cast<double>(args.geti("deadline", 3000)));
 	init_views(); build_ops(thorough);
 	std::string tag = "D" + std::to_string(D) + "|" + ELEM;
@@ -314,12 +378,19 @@ int main(int argc, char** argv) {
 	if(args.has("replay")) {  // --replay=<tier>:<id,id,...>  (ids index this binary's op table for the given tier)
 		std::string r = args.get("replay"); auto c = r.find(':'); std::string ids = r.substr(c + 1);
 		if(r.substr(0, c) == "thorough" && !thorough) { g_ops.clear(); build_ops(true); }
+		long fk = -1; { auto at = ids.find('@'); if(at != std::string::npos) { fk = std::atol(ids.c_str() + at + 1); ids = ids.substr(0, at); } }
 		std::vector<int> h; { std::string cur; for(char ch : ids + ",") { if(ch == ',') { if(!cur.empty()) { h.push_back(std::atoi(cur.c_str())); } cur.clear(); } else { cur += ch; } } }
 		if(h.empty()) { return 2; }
 		int op = h.back(); h.pop_back();
 		MPool before, after; if(!model_run(h, before)) { std::printf("REPLAY history not enabled\n"); return 2; }
 		after = before; if(!g_ops[static_cast<std::size_t>(op)].model(after)) { std::printf("REPLAY op not enabled\n"); return 2; }
 		std::printf("history: %s ; THEN %s\n", hist_str(h).c_str(), g_ops[static_cast<std::size_t>(op)].name.c_str());
+		if(fk >= 0) {
+			std::printf("history: %s ; THEN %s with fault opportunity #%ld armed\n", hist_str(h).c_str(), g_ops[static_cast<std::size_t>(op)].name.c_str(), fk);
+			Outcome fo = run_fault(h, op, fk);
+			std::printf("REPLAY %s fault_kind=%s oracle=%s detail=%s\n", fo.ok ? "OK" : "VIOLATION", fo.strides.c_str(), fo.oracle.c_str(), fo.detail.c_str());
+			return fo.ok ? 0 : 1;
+		}
 		Outcome o = run_transition(h, op, before, after);
 		std::printf("REPLAY %s oracle=%s detail=%s\n", o.ok ? "OK" : "VIOLATION", o.oracle.c_str(), o.detail.c_str());
 		return o.ok ? 0 : 1;
@@ -341,6 +412,25 @@ int main(int argc, char** argv) {
 			std::vector<Tr> trs;
 			for(int oi = 0; oi < static_cast<int>(g_ops.size()); ++oi) { MPool m2 = st.m; if(g_ops[static_cast<std::size_t>(oi)].model(m2)) { trs.push_back(Tr{oi, std::move(m2)}); } }
 			auto outs = isolated(static_cast<int>(trs.size()), [&](int i) { return run_transition(st.h, trs[static_cast<std::size_t>(i)].oi, st.m, trs[static_cast<std::size_t>(i)].m2); });
+			if(fault_mode) {
+				struct FI { std::size_t ti; long k; };
+				std::vector<FI> items;
+				for(std::size_t ti = 0; ti < trs.size(); ++ti) { if(outs[ti].crashed) { continue; } for(long k = 0; k < outs[ti].nfault; ++k) { items.push_back(FI{ti, k}); } }
+				auto fouts = isolated(static_cast<int>(items.size()), [&](int i) { auto const& it = items[static_cast<std::size_t>(i)]; return run_fault(st.h, trs[it.ti].oi, it.k); });
+				for(std::size_t i = 0; i < items.size(); ++i) {
+					auto const& it = items[i]; auto const& fo = fouts[i]; auto const& od = g_ops[static_cast<std::size_t>(trs[it.ti].oi)];
+					++fault_runs;
+					if(fo.ok) { if(fo.strides != "not-reached") { ++fault_nontrivial; } continue; }
+					std::vector<int> h2 = st.h; h2.push_back(trs[it.ti].oi);
+					std::string rp = std::string(thorough ? "thorough:" : "quick:") + hist_ids(h2) + "@" + std::to_string(it.k);
+					std::string kind = fo.crashed ? "any" : fo.strides;
+					std::string sym = fo.crashed ? (fo.detail.find("terminate called") != std::string::npos ? std::string("terminate") : fo.oracle) : fo.oracle.substr(0, fo.oracle.find('('));
+					if(prop == "all" || prop == "C09") {
+						mc::R.violation(std::string(ELEM) + "|" + od.cls + "|" + kind + "|" + sym,
+							mc::J().s("harness", "histmc").s("config", cfgid + " mode=fault").s("replay", rp).s("history", hist_str(st.h)).s("op", od.name).n("fault_index", it.k).s("fault_kind", kind).s("oracle", fo.oracle).s("detail", fo.detail).str());
+					}
+				}
+			}
 			for(std::size_t ti = 0; ti < trs.size(); ++ti) {
 				int oi = trs[ti].oi; auto const& od = g_ops[static_cast<std::size_t>(oi)]; MPool& m2 = trs[ti].m2; Outcome const& o = outs[ti];
 				std::vector<int> h2 = st.h; h2.push_back(oi);
@@ -352,6 +442,7 @@ int main(int argc, char** argv) {
 				if(!o.ok) {
 					bool monitor = is_monitor_oracle(o.oracle);
 					std::string owner = monitor ? "C08" : od.prop;
+					if(o.oracle == "allocated" || o.oracle == "same-extent-assignment-allocated") { owner = "C09"; }
 					bool mine = prop == "all" || prop == owner || (prop == "C10" && (is_alloc_oracle(o.oracle) || !monitor)) || (prop == "C08" && monitor);
 					if(mine) {
 						mc::R.violation(tag + "|" + cls + "|" + o.oracle.substr(0, o.oracle.find('(')),
@@ -369,7 +460,8 @@ int main(int argc, char** argv) {
 			}
 		}
 		if(!capped) { completed = maxdepth; }
-		mc::R.add("states", states); mc::R.add("transitions", transitions); mc::R.add("distinct_nontrivial", changed);
+		mc::R.add("states", states); mc::R.add("transitions", transitions); mc::R.add("distinct_nontrivial", fault_mode ? fault_nontrivial : changed);
+		if(fault_mode) { mc::R.add("evaluations", fault_runs); mc::R.add("fault_placements", fault_runs); }
 		if(capped) { mc::R.exhaustive = false; }
 		mc::R.note(cfgid + ": alphabet=" + std::to_string(g_ops.size()) + " ops, completed_depth=" + std::to_string(completed) + " states=" + std::to_string(states) + " transitions=" + std::to_string(transitions) + (capped ? " CAPPED" : ""));
 		mc::R.emit(stdout);
